@@ -117,7 +117,7 @@ def _inside_pts(F, tag, npts, tris):
         k = F.choice("%s_tri%d" % (tag, i), list(range(tris)))
         u = F.real("%s_u%d" % (tag, i), 0, 1)
         v = F.real("%s_v%d" % (tag, i), 0, 1)
-        F.assume(F.and_(u >= 0.01, v >= 0.01, u + v <= 0.99))
+        F.assume(F.and_(u > 0, v > 0, u + v < 1))
         tri = TRILIST[k]
         pts.append(list(S[tri[0]] + (S[tri[1]] - S[tri[0]]) * u + (S[tri[2]] - S[tri[0]]) * v))
     return np.array(pts, dtype=object if F.sym else float)
